@@ -71,6 +71,15 @@ class MemoryBlock {
     }
 
     /**
+     * @brief Discard the contents of the block and move the insertion point
+     * back to the start, as in a newly constructed block.
+     */
+    void Reset() {
+      m_first = m_data;
+      m_last = m_data;
+    }
+
+    /**
      * @brief The size of the memory region for this block.
      * @returns the size of the memory region for this block.
      */
